@@ -1714,3 +1714,83 @@ func readsToken(fn *ssa.Function, k, depth int, isDec func(*ssa.Call, string) ss
 	}
 	return false
 }
+
+// errorTestedFirst: in these packages the statement after a fallible call tests that call's
+// error (89 of 93 sites on the pinned tree; the other four return the error or have no test at
+// all). The rule is the contradiction form: when the statement after `v, err := f(…)` is an
+// `if` that compares something with nil, that something is err. `if v != nil { return …, err }`
+// takes the failure path on success and lets a failure through with a nil v.
+func (c *Ctx) errorTestedFirst(rule string, floor int, rels ...string) {
+	run := c.Run
+	n := 0
+	errType := types.Universe.Lookup("error").Type()
+	for _, rel := range rels {
+		pk := c.P.Pkg(rel)
+		if pk == nil {
+			continue
+		}
+		info := pk.TypesInfo
+		for _, f := range pk.Syntax {
+			if strings.HasSuffix(c.P.Fset.Position(f.Pos()).Filename, "_test.go") {
+				continue
+			}
+			var fname string
+			ast.Inspect(f, func(nd ast.Node) bool {
+				if fd, isFn := nd.(*ast.FuncDecl); isFn {
+					fname = rel + "." + fd.Name.Name
+					if fd.Recv != nil && len(fd.Recv.List) == 1 {
+						fname = rel + ".(" + typeExprName(fd.Recv.List[0].Type) + ")." + fd.Name.Name
+					}
+				}
+				blk, ok := nd.(*ast.BlockStmt)
+				if !ok {
+					return true
+				}
+				for i := 0; i+1 < len(blk.List); i++ {
+					as, ok := blk.List[i].(*ast.AssignStmt)
+					if !ok || len(as.Rhs) != 1 || len(as.Lhs) < 2 {
+						continue
+					}
+					if _, isCall := ast.Unparen(as.Rhs[0]).(*ast.CallExpr); !isCall {
+						continue
+					}
+					eid, ok := as.Lhs[len(as.Lhs)-1].(*ast.Ident)
+					if !ok {
+						continue
+					}
+					eobj := info.ObjectOf(eid)
+					if eobj == nil || !types.Identical(eobj.Type(), errType) {
+						continue
+					}
+					is, ok := blk.List[i+1].(*ast.IfStmt)
+					if !ok || is.Init != nil {
+						continue
+					}
+					n++
+					nilTest, mentions := false, false
+					ast.Inspect(is.Cond, func(m ast.Node) bool {
+						switch x := m.(type) {
+						case *ast.BinaryExpr:
+							if (x.Op == token.EQL || x.Op == token.NEQ) && (isNilIdent(ast.Unparen(x.X)) || isNilIdent(ast.Unparen(x.Y))) {
+								nilTest = true
+							}
+						case *ast.Ident:
+							if info.Uses[x] == eobj {
+								mentions = true
+							}
+						}
+						return true
+					})
+					good := !nilTest || mentions
+					run.Oblige(good)
+					if !good {
+						c.violate(rule, fname, "tests "+short(exprString(is.Cond), 30), is.Pos(), "the statement after the call tests `"+exprString(is.Cond)+"`, not the error "+eid.Name+" the call returned: the failure branch is taken on the wrong condition and a failed call goes on with its zero result")
+					}
+				}
+				return true
+			})
+		}
+	}
+	run.Count("error_tests_after_calls", n)
+	run.Floor("error_tests_after_calls", floor)
+}
